@@ -1121,18 +1121,19 @@ SRC_MODS = ["HitenModel.Props.C10", "HitenModel.Gen.C10", "HitenModel.Core.C10",
 
 def run(ctx):
     import hiten  # noqa: F401  (numba compile at import)
-    gen(ctx)
+    ctx.guard("regenerate", gen, ctx)
     ok = ctx.lean_build(PROP_MODS)
     if ok:
         ctx.lean_audit(PROP_MODS, SRC_MODS)
         if ctx.thorough():
             ctx.leanchecker(PROP_MODS)
-    correspondence(ctx)
-    validate_dense_at_zero(ctx)
+    ctx.guard("correspondence", correspondence, ctx)
+    ctx.guard("validate_dense_at_zero", validate_dense_at_zero, ctx)
     numerics_lowlevel(ctx)
     numerics_propagate(ctx)
     numerics_public(ctx)
-    check_cfg_against_findings(ctx, _CACHE["cfg"])
+    if "cfg" in _CACHE:
+        check_cfg_against_findings(ctx, _CACHE["cfg"])
     ctx.search_ran = True
     ctx.assumptions += [
         "times are modelled as integer ticks of an arbitrary dyadic unit (every float64 grid is such a grid); float rounding of t+h is not modelled",
